@@ -134,7 +134,12 @@ PROPS["C20"] = {
     "streams": lambda seed, tier: [
         {"cfg": c, "name": "threads:" + g, "kind": "threads", "lines": gen(g, seed, n, tier)}
         for c in cfgs(tier, ["asm"], ["asm", "portable64", "tsan"])
-        for (g, n) in (("fp", 3), ("tower", 3), ("curve", 3), ("scalar", 2), ("pairing", 2))],
+        for (g, n) in (("fp", 3), ("tower", 3), ("curve", 3), ("scalar", 2), ("pairing", 2))] + [
+        # "no mutable state between calls": the harness snapshots every const input (attribute lists, stored parameters and
+        # keys) and aborts when a call writes to one; sequential run of the scheme and marshalling streams
+        {"cfg": "asm", "name": "const-inputs:" + g, "lines": gen(g, seed, n, tier),
+         **({"expand": (lambda ls, outs, _g=g, _seed=seed, _tier=tier: gen_ops.expand_unmarshal(ls, outs, __import__("random").Random("%s/%d/x" % (_g, _seed)), _tier))} if g == "marshal" else {})}
+        for (g, n) in (("wkdibe", 2), ("marshal", 2))],
     "rule": "the same op lines are executed by 4 threads concurrently, each in a different order and twice; every thread must produce, line for line, the output of the sequential run (judged against the Spec)",
     "not_modelled": "footprint premises of interleaving_eq_sequential come from object-code tables, not from a semantics of machine code; data races are only sampled (TSan in the thorough tier)",
 }
